@@ -4,6 +4,8 @@ package c16
 import (
 	"bytes"
 	"fmt"
+	"reflect"
+	"sort"
 	"testing"
 
 	"github.com/luthersystems/elps/formatter"
@@ -88,11 +90,42 @@ func configsFor(c Case) []namedCfg {
 	return append(out, namedCfg{"custom", c.Cfg, false})
 }
 
-func format(src []byte, nc namedCfg) ([]byte, error) {
+// live returns the ONE *formatter.Config value used for every Format call of
+// this configuration within a case (first pass, idempotence pass, repeated
+// first pass): callers reuse a Config, so state leaking through it is part of
+// "formatting its own output changes nothing ... under any indentation rules".
+func (nc namedCfg) live() *formatter.Config {
 	if nc.nilOK {
-		return formatter.Format(src, nil)
+		return formatter.DefaultConfig()
 	}
-	return formatter.Format(src, nc.cfg.build())
+	return nc.cfg.build()
+}
+
+// pristine is what live() must still look like after any number of calls.
+func (nc namedCfg) pristine() *formatter.Config { return nc.live() }
+
+func describeCfgDiff(got, want *formatter.Config) string {
+	if got.IndentSize != want.IndentSize || got.MaxBlankLines != want.MaxBlankLines || got.Compact != want.Compact || got.StripComments != want.StripComments {
+		return fmt.Sprintf("scalar fields now %+v, were %+v", *got, *want)
+	}
+	if len(got.Rules) != len(want.Rules) {
+		return fmt.Sprintf("Rules has %d entries, had %d", len(got.Rules), len(want.Rules))
+	}
+	names := make([]string, 0, len(want.Rules))
+	for k := range want.Rules {
+		names = append(names, k)
+	}
+	sort.Strings(names)
+	for _, k := range names {
+		g, ok := got.Rules[k]
+		if !ok || g == nil {
+			return fmt.Sprintf("Rules[%q] is gone", k)
+		}
+		if *g != *want.Rules[k] {
+			return fmt.Sprintf("Rules[%q] is now %+v, was %+v", k, *g, *want.Rules[k])
+		}
+	}
+	return "differs (reflect.DeepEqual)"
 }
 
 // ---------- oracle ----------
@@ -149,7 +182,7 @@ func oracle(c Case, ctx *vcommon.Ctx, known knownFn) *vcommon.Failure {
 	if in.err != nil {
 		ctx.Class("rejected")
 		for _, nc := range cfgs {
-			out, err := format(src, nc)
+			out, err := formatter.Format(src, nc.live())
 			if err == nil {
 				return vcommon.Failf(nc.cfg.mode()+"/accepts-rejected", "[%s] the reader rejects %q (%v) but Format returns %q", nc.label, src, in.err, out)
 			}
@@ -174,7 +207,14 @@ func oracle(c Case, ctx *vcommon.Ctx, known knownFn) *vcommon.Failure {
 		if stripOnly {
 			mode = "default" // same printer path; comments are not compared
 		}
-		out, err := format(src, nc)
+		cfg := nc.live() // ONE value for every call below
+		out, err := formatter.Format(src, cfg)
+		if nc.nilOK && err == nil {
+			// a nil config is documented to mean DefaultConfig()
+			if outNil, errNil := formatter.Format(src, nil); errNil != nil || !bytes.Equal(outNil, out) {
+				fs.add("default/nil-config-differs", "Format(x, nil) = %q (%v) but Format(x, DefaultConfig()) = %q\n source %q", outNil, errNil, out, src)
+			}
+		}
 		if err != nil {
 			fs.add(mode+"/rejects-accepted", "[%s] the reader accepts %q but Format fails: %v", nc.label, src, err)
 			continue
@@ -207,7 +247,7 @@ func oracle(c Case, ctx *vcommon.Ctx, known knownFn) *vcommon.Failure {
 			}
 		}
 		// (d) idempotence
-		again, err := format(out, nc)
+		again, err := formatter.Format(out, cfg)
 		if err != nil {
 			fs.add(mode+"/idempotence-rejects", "[%s] Format rejects its own output %q (from %q): %v", nc.label, out, src, err)
 		} else if !bytes.Equal(again, out) && stripOnly {
@@ -216,6 +256,14 @@ func oracle(c Case, ctx *vcommon.Ctx, known knownFn) *vcommon.Failure {
 			ctx.Class("observation:strip-only-not-idempotent")
 		} else if !bytes.Equal(again, out) {
 			fs.add(mode+"/idempotence"+idemClass(in, o), "[%s] Format(Format(x)) != Format(x)\n source %q\n pass 1 %q\n pass 2 %q", nc.label, src, out, again)
+		}
+		// (d') the same Config value reused: formatting the same source again
+		// gives the same bytes, and the caller's Config is left as it was
+		if out2, err2 := formatter.Format(src, cfg); err2 != nil || !bytes.Equal(out2, out) {
+			fs.add(mode+"/config-reuse/second-format-differs", "[%s] the same source formatted twice with the same *Config gives two results (%v)\n source %q\n first  %q\n second %q", nc.label, err2, src, out, out2)
+		}
+		if want := nc.pristine(); !reflect.DeepEqual(cfg, want) {
+			fs.add(mode+"/config-reuse/config-mutated", "[%s] Format modified the caller's Config: %s\n source %q", nc.label, describeCfgDiff(cfg, want), src)
 		}
 		// one trailing newline exactly (formatter.go: normalisation), unless empty
 		if len(out) > 0 && (out[len(out)-1] != '\n' || (len(out) > 1 && out[len(out)-2] == '\n')) {
